@@ -38,7 +38,19 @@ fn gen_value(rng: &mut Rng, depth: usize) -> Value {
         0 => Value::Null,
         1 => json!(rng.chance(1, 2)),
         2 => json!(*rng.pick(&[0i64, -1, 1, i64::MAX, i64::MIN, 42, 1 << 53])),
-        3 => json!(*rng.pick(&[0.5f64, -1.25, 1e10, 1e-7, 3.0])),
+        3 => {
+            if rng.chance(1, 2) {
+                json!(*rng.pick(&[0.5f64, -1.25, 1e10, 1e-7, 3.0, 0.9999999999999999, 1.0000000000000002, 0.1, 0.30000000000000004, 5e-324, 1.7976931348623157e308, 2.2250738585072014e-308, 9007199254740993.0]))
+            } else {
+                // any finite double: its shortest decimal text denotes it and nothing else
+                loop {
+                    let f = f64::from_bits(rng.next());
+                    if f.is_finite() {
+                        break json!(f);
+                    }
+                }
+            }
+        }
         4 => json!(*rng.pick(KEYS)),
         5 => json!(u64::MAX),
         6 => Value::Array((0..rng.below(4)).map(|_| gen_value(rng, depth - 1)).collect()),
@@ -107,7 +119,7 @@ fn opt_flag(i: usize) -> Option<bool> {
 
 pub fn main(ctx: &Ctx) -> i32 {
     ctx.set_rule("Request/Reply: all {unset,true,false}^3 flag combinations x 6 method strings x parameters {absent, null, scalar, nested} (exhaustive) + random nested parameters; StringHashSet / StringHashMap<T>: all subsets of an 18-key pool up to size 3 exhaustively + random larger ones (empty, non-ASCII, quotes, backslashes, control characters); ServiceInfo and description types; 3 entry points each (str, bytes, Value) and the reverse direction from hand-built JSON objects; distinct = (type, value hash); non-trivial = >=1 optional set or >=1 collection element");
-    ctx.assume("numbers are compared with serde_json's Number equality (integers exact; floats from a fixed pool that round-trips exactly)");
+    ctx.assume("numbers are compared with serde_json's Number equality (integers exact; floats: a pool of awkward doubles and random finite bit patterns, compared exactly)");
     let fail = |ctx: &Ctx, sig: &str, ty: &str, val: String, msg: String| {
         ctx.violation(sig, json!({"engine": "c17", "type": ty, "value": val, "message": msg}));
     };
